@@ -126,10 +126,22 @@ def r04b(P, R):
     def enter(g):
         # pieces split off check_value (the variable branch, the literal branch) are part of the table
         return True if same_job(f, g) else None
+    # the value checker may be a family of functions doing the same job (a public wrapper around a worker with more parameters):
+    # "recursion" is a call of any of them that the evaluation does not enter because it is already being evaluated
+    family = {f.path} | {g.path for g in P.fns.values() if g.kind in ("Fn", "AssocFn") and not g.derived and same_job(f, g) and _idx(g, T_VALUE) is not None}
+
+    def recursions(evs):
+        entered = {(e[1], e[2]) for e in evs if e[0] == "enter"}
+        return [e for e in evs if e[0] == "call" and e[1] in family and (e[1], e[2]) not in entered]
+
+    def value_arg(e):
+        g = P.fns[e[1]]
+        gi = _idx(g, T_VALUE)
+        return e[3][gi] if (e[3] is not None and gi is not None and gi < len(e[3])) else None
 
     def want(ev):
-        return (ev[0] in ("call", "enter") and ev[1] in (f.path, ivc.path, ctc.path)) or (ev[0] == "ctor" and ev[1].split("::")[-1] in ("TypeMismatch", "UnknownVariable")) \
-            or (ev[0] == "call" and ev[1].startswith(CK))
+        return (ev[0] in ("call", "enter") and (ev[1] in family or ev[1] in (ivc.path, ctc.path))) \
+            or (ev[0] == "ctor" and ev[1].split("::")[-1] in ("TypeMismatch", "UnknownVariable")) or (ev[0] in ("call", "enter") and ev[1].startswith(CK))
 
     def run(w, vk):
         E = KindEval(P, want=want, enter=enter)
@@ -139,9 +151,9 @@ def r04b(P, R):
         mism = [bool(ev_ctors(evs, "TypeMismatch")) for _, evs, _ in paths]
         rec = []
         for _, evs, _ in paths:
-            calls = ev_calls(evs, f.path)
-            rec.append(bool(calls) and (vk == "ListValue" or all(c[3] is not None and vi < len(c[3]) and c[3][vi] == V(vk) for c in calls)))
-        anyrec = [bool(ev_calls(evs, f.path)) for _, evs, _ in paths]
+            calls = recursions(evs)
+            rec.append(bool(calls) and (vk == "ListValue" or all(value_arg(c) == V(vk) for c in calls)))
+        anyrec = [bool(recursions(evs)) for _, evs, _ in paths]
         if not paths:
             return "?"
         if all(mism) and not any(anyrec):
@@ -174,7 +186,7 @@ def r04b(P, R):
             E, paths = run(w, "Variable")
             for _, evs, _ in paths:
                 entered = {e[1] for e in evs if e[0] == "enter"}
-                if ev_calls(evs, ivc.path) or ev_calls(evs, f.path):
+                if ev_calls(evs, ivc.path) or recursions(evs):
                     verdicts.append(False)
                     why = "a variable in a %s position is typed as if it were a literal" % w
                 elif ev_ctors(evs, "UnknownVariable") or ev_calls(evs, ctc.path):
@@ -349,9 +361,31 @@ def r04d(P, R):
     else:
         a = pv.atoms(all_args(calls[-1])[ti[0]])
         has_c, has_r = ("param", names[ci]) in a, ("param", names[ri]) in a
-        decide(R, "R04-d", "narrowed-parent", True if (has_c and not has_r) else (False if not has_c else None),
+        verdict, why = (True if (has_c and not has_r) else (False if not has_c else None)), "the fragment body is not checked against the condition type"
+        if verdict is None:
+            # the parent handed down is chosen between the two types: which one, per (scope kind, condition kind)?  Kinds tell the two
+            # apart whenever they differ
+            verdict = True
+            try:
+                for a_ in COMPOSITE:
+                    for b_ in COMPOSITE:
+                        if a_ == b_:
+                            continue
+                        E = KindEval(P, want=lambda ev: ev[0] == "call" and ev[1] == css.path, enter=lambda g_: True if same_job(f, g_) else None)
+                        for _, evs, _ in E.run(f, {ri: V(a_), ci: V(b_)}):
+                            for e in ev_calls(evs, css.path):
+                                got = e[3][ti[0]] if e[3] is not None and ti[0] < len(e[3]) else None
+                                if got == V(a_):
+                                    verdict, why = False, ("for a %s scope and a %s type condition a path checks the fragment's selections against "
+                                                           "the enclosing %s instead of the type condition" % (a_, b_, a_))
+                                elif got != V(b_) and verdict is not False:
+                                    verdict = None
+            except TooComplex:
+                verdict = None
+        decide(R, "R04-d", "narrowed-parent", verdict,
                "selections inside a fragment are checked against the fragment's type condition",
-               "the fragment body is not checked against the (narrowed) condition type", "the parent type handed down derives from both types", loc=f.loc())
+               "%s: nested type conditions valid for the condition type are then reported as never matching" % why,
+               "the parent type handed down derives from both types", loc=f.loc())
     # inline fragment without type condition keeps the parent type
     g = role_fn(P, CK + "operation_checker::check_inline_fragment")
     pvg = MProv(g)
@@ -456,7 +490,7 @@ EXPLANATION = (
     "non-list value coerces to a one-element list, variables go through type compatibility; (R04-c) IsVariableUsageAllowed depends on "
     "the variable's default, and the nine (location kind, variable kind) cases of AreTypesCompatible take the required action; "
     "(R04-d) each of the nine composite (scope, condition) pairs has a conditional overlap test deciding on the right components, bodies "
-    "are checked against the narrowed type, no iterator is consumed by two partial consumers; (R04-e) __typename meta field, "
+    "are checked against the type condition for every (scope kind, condition kind), no iterator is consumed by two partial consumers; (R04-e) __typename meta field, "
     "subscription threshold. Not decided: value-dependent parts (possible-type overlap computed from a concrete schema, imported fragments).")
 ASSUMPTIONS = ["GraphQL spec (October 2021) §3.5, §5.8.5 transcribed by hand",
                "abstract evaluation over kinds over-approximates the paths of the evaluated functions (loops: 0 or 1 iteration)"]
